@@ -107,6 +107,37 @@ def run(ctx):
                'sigFromPy can return %s, which is not evidently a single '
                'complete type' % term_str(v)[:80])
     ctx.extra['inferred_constants'] = sorted(codes_seen)
+    # each basic Python type is inferred as the code of ITS D-Bus type (a
+    # value must be encodable under the signature inferred for it): decided
+    # from the type test the returning path passed last
+    EXPECT = {'bool': ('b',), 'int': ('i', 'x', 't', 'n', 'q', 'u', 'y'),
+              'float': ('d',), 'str': ('s',), 'bytearray': ('ay',),
+              'bytes': ('ay',)}
+    n_basic = 0
+    for p in paths:
+        if p.outcome != 'return' or not is_const(p.value):
+            continue
+        tested = None
+        for c, pol in p.cond:
+            if not pol:
+                continue
+            if kind(c) == 'call' and c[1] == 'isinstance' and \
+                    c[3][0] == pobj and kind(c[3][1]) == 'builtin':
+                tested = c[3][1][1]
+            if kind(c) == 'cmp' and c[1] in ('==', 'is') and \
+                    kind(c[3]) == 'builtin' and kind(c[2]) == 'call' and \
+                    c[2][1] == 'type' and c[2][3] == (pobj,):
+                tested = c[3][1]
+        if tested in EXPECT:
+            n_basic += 1
+            ctx.ob('C19.D2', fi0.qualname, 'basic-inference:%s' % tested,
+                   p.value[1] in EXPECT[tested],
+                   'a Python %s is inferred as %r; it must be %s (the value '
+                   'cannot be encoded under another type)' % (
+                       tested, p.value[1], ' / '.join(EXPECT[tested])))
+    if n_basic < 5:
+        raise AnalysisError('sigFromPy: only %d basic-type return paths '
+                            'recognised' % n_basic)
     # "all elements have one type" flags: start True before the loop over
     # the elements and may only ever be LOWERED inside it (a flag that is
     # recomputed per element reflects the last element only)
@@ -245,6 +276,29 @@ def run(ctx):
             for p in cm.paths(fi, le):
                 R.check_threading(ctx, cm, 'C19.D6', fi, le, p, fi.name)
     R.signature_length_limit(ctx, cm, 'C19.D6')
+
+    # the signature a variant carries is a 'g' value: its writer and reader
+    # must agree on the length byte (unsigned, up to 255), the payload and
+    # the size (the string-like clauses of C01-D3, for 'g' only)
+    class _OnlyG:
+        prog = ctx.prog
+        tier = ctx.tier
+        extra = {}
+
+        def ob(self, rule, where, slot, ok, msg, detail=None,
+               nontrivial=True, loc=None):
+            if ':g:' in slot or slot.endswith(':g'):
+                ctx.ob('C19.D6', where, slot, ok,
+                       '[the signature of a variant is a SIGNATURE value] '
+                       + msg, detail, nontrivial, loc)
+            return ok
+
+        def floor(self, *a):
+            pass
+
+        def advisory(self, *a):
+            pass
+    R.r_stringlike(_OnlyG(), cm, 'C01.D3', None)
     ctx.floor('C19.D6', 10)
     ctx.floor('C19.D1', 10)
     ctx.floor('C19.D2', 8)
